@@ -408,6 +408,70 @@ impl<S: AsyncRead + AsyncWrite + Unpin> NoiseSocket<S> {
     }
 }
 
+/// Verification hooks: `[MAX_NOISE_MSG_LEN, NOISE_EXTRA_ENCRYPT_SPACE, MAX_FRAME_LEN,
+/// MAX_READ_AHEAD_FACTOR, MAX_WRITE_BUFFER_SIZE]` as compiled.
+#[cfg(feature = "verif")]
+pub const VERIF_CONSTS: [usize; 5] = [
+    MAX_NOISE_MSG_LEN,
+    NOISE_EXTRA_ENCRYPT_SPACE,
+    MAX_FRAME_LEN,
+    MAX_READ_AHEAD_FACTOR,
+    MAX_WRITE_BUFFER_SIZE,
+];
+
+/// Verification hooks: read-only view of the socket's framing state (used by the external
+/// correspondence harness; adds code only).
+#[cfg(feature = "verif")]
+impl<S: AsyncRead + AsyncWrite + Unpin> NoiseSocket<S> {
+    /// `[tag, a, b, c, nread, offset, current_frame_size + 1 (0 = None)]` where `tag`/`a`/`b`/`c`
+    /// are `0, max_read, 0, 0` for `ReadData`, `1, 0, 0, 0` for `ReadFrameLen`,
+    /// `2, 0, 0, 0` for `ProcessNextFrame` without a pending buffer and
+    /// `3, offset, size, frame_size` for `ProcessNextFrame` with a pending buffer.
+    pub fn verif_read_state(&self) -> [usize; 7] {
+        let (tag, a, b, c) = match &self.read_state {
+            ReadState::ReadData { max_read } => (0, *max_read, 0, 0),
+            ReadState::ReadFrameLen => (1, 0, 0, 0),
+            ReadState::ProcessNextFrame { pending: None, .. } => (2, 0, 0, 0),
+            ReadState::ProcessNextFrame {
+                pending: Some(_),
+                offset,
+                size,
+                frame_size,
+            } => (3, *offset, *size, *frame_size),
+        };
+        [
+            tag,
+            a,
+            b,
+            c,
+            self.nread,
+            self.offset,
+            self.current_frame_size.map_or(0, |size| size + 1),
+        ]
+    }
+
+    /// `[0, 0, 0]` for `Idle`, `[1, offset, encrypted_len]` for `Writing`.
+    pub fn verif_write_state(&self) -> [usize; 3] {
+        match self.write_state {
+            WriteState::Idle => [0, 0, 0],
+            WriteState::Writing {
+                offset,
+                encrypted_len,
+            } => [1, offset, encrypted_len],
+        }
+    }
+
+    /// `(read_buffer.len(), encrypt_buffer.len(), decrypt_buffer.len(), canonical_max_read)`.
+    pub fn verif_buffer_sizes(&self) -> [usize; 4] {
+        [
+            self.read_buffer.len(),
+            self.encrypt_buffer.len(),
+            self.decrypt_buffer.as_ref().map_or(0, |buffer| buffer.len()),
+            self.canonical_max_read,
+        ]
+    }
+}
+
 impl<S: AsyncRead + AsyncWrite + Unpin> AsyncRead for NoiseSocket<S> {
     fn poll_read(
         self: Pin<&mut Self>,
